@@ -313,12 +313,18 @@ static void run_body(uint64_t idx, Rng& r) {
       what = "reset"; count("reset");
     } else if (op < 970) {
       // incompatible operands are refused and change nothing
-      const int which = int(r.below(3));
-      bloom_filter o = bloom_filter::builder::create_by_size(which == 0 ? L.m.cap + 64 : L.m.cap, uint16_t(which == 1 ? L.m.nh + 1 : L.m.nh), which == 2 ? L.m.seed + 1 : L.m.seed);
+      int which = int(r.below(5));
+      if (which == 3 && L.m.nh < 2) which = 1;       // fewer hashes needs nh >= 2
+      if (which == 4 && L.m.cap < 128) which = 0;    // smaller capacity needs cap >= 128
+      bloom_filter o = bloom_filter::builder::create_by_size(which == 0 ? L.m.cap + 64 : (which == 4 ? L.m.cap - 64 : L.m.cap),
+        uint16_t(which == 1 ? L.m.nh + 1 : (which == 3 ? L.m.nh - 1 : L.m.nh)), which == 2 ? L.m.seed + 1 : L.m.seed);
+      count("incompatible_kind_" + std::to_string(which));
       o.update(uint64_t(7));
       VF_CHECK(!L.f->is_compatible(o), "bloom|is_compatible|true-for-incompatible", cfg(L) + " which=" + std::to_string(which));
       VF_CHECK(throws([&] { L.f->union_with(o); }), "bloom|incompatible|union_with-accepted", cfg(L) + " which=" + std::to_string(which));
       VF_CHECK(throws([&] { L.f->intersect(o); }), "bloom|incompatible|intersect-accepted", cfg(L) + " which=" + std::to_string(which));
+      VF_CHECK(!o.is_compatible(*L.f), "bloom|is_compatible|true-for-incompatible", cfg(L) + " reversed which=" + std::to_string(which));
+      VF_CHECK(throws([&] { o.union_with(*L.f); }), "bloom|incompatible|union_with-accepted", cfg(L) + " reversed which=" + std::to_string(which));
       what = "refused incompatible operand"; count("incompatible_refusals");
     } else if (pool.size() < 4) {
       // new filter from a view of an existing one: copy (owned) or deserialized
